@@ -30,6 +30,9 @@ type Obligation struct {
 	StructOK bool
 	StructMsg string
 	ModelTerms map[string]*smt.Term // named terms to extract from a model
+	Contract   *Contract
+	Clause     spec.Expr
+	Replay     *ReplayInfo
 }
 
 type loopInfo struct {
@@ -359,6 +362,12 @@ func (x *Exec) scanLoop(li *loopInfo) {
 				li.allHeap = true
 			case *ssa.Send, *ssa.Select:
 				li.allHeap = true
+			case *ssa.Next:
+				if rg, ok := in.Iter.(*ssa.Range); ok {
+					if mt, ok := rg.X.Type().Underlying().(*types.Map); ok {
+						li.heaps[x.iterHeap(rg, mt)] = true
+					}
+				}
 			}
 		}
 	}
@@ -625,6 +634,18 @@ func (e *Engine) VerifyFunc(c *Contract, maxPaths int) *FuncResult {
 		x.findLoops()
 		x.findCuts()
 		x.run()
+	}()
+	// replay: the model terms (parameters, receiver fields at entry) are the same for every obligation
+	func() {
+		defer func() { recover() }()
+		if ri := x.replayInfo(); ri != nil {
+			for _, o := range x.obls {
+				if o.Expect == "sat" {
+					continue
+				}
+				o.Replay, o.ModelTerms, o.Contract = ri, ri.Terms, c
+			}
+		}
 	}()
 	res.Obligations = x.obls
 	res.Unsupported = x.unsup
@@ -1340,6 +1361,7 @@ func (x *Exec) finish(s *State, ret *ssa.Return, rs []Val) {
 	for i, en := range x.c.Ensures {
 		goal := x.evalBool(env, en.E)
 		x.addObl(s, "post", clauseLabel(en, i), goal, x.clauseProps(en), en.Src)
+		x.obls[len(x.obls)-1].Clause = en.E
 	}
 	if x.c.AssignsSet {
 		x.frameCheck(s, env)
